@@ -277,6 +277,23 @@ def growth_misc(rep):
         os.unlink(path)
 
 
+def termination_stage(rep, tier):
+    """C02 'terminates' (M1, liveness): under weak fairness of the solver's own steps every run that has begun ends
+    (RunTerminates), and the number of underlying solves is bounded by what the criteria list needs (SolvesBounded).
+    Checked by TLC without a state constraint on a complete small family; the implementation side of 'terminates' is
+    that every replayed run returned (a hanging replay would stop the check by its timeout: exit 2)."""
+    from . import tlc
+    C = fm.C
+    base = dict(NS=2, NP=2, NL=1 if tier == 'quick' else 2, MaxLen=2, TieMode='none' if tier == 'quick' else 'all', AllowEmpty=True,
+                PQ={(0, 1), (1, 1)}, LQ={(0, 2, 2)}, Sided={'one'}, PCs={False, True})
+    f = fm.fam(CritLists=[(), (C('maxsize'), C('gre')), (C('gen'), C('mincost'), C('lsb')), (C('minsize'), C('lmb'), C('gre', 1), C('mincostlsb'))], **base)
+    res = tlc.run('MC_Solver', consts=f, invariants=['SolvesBounded'], spec='FairSpec', properties=['RunTerminates'],
+                  label='termination: FairSpec |= RunTerminates, SolvesBounded', timeout=1500)
+    tlc.require_ok(res, rep.pid)
+    rep.add_tlc(tlc.stats_of(res))
+    rep.notes.append('liveness: RunTerminates holds under WF(DoSolveStep), WF(DoEndSolve) on %d states (no state constraint)' % res['distinct'])
+
+
 def main(pid, tier, seed):
     post = None
     if pid in ('C01', 'C02', 'C03', 'C04', 'C05'):
@@ -285,6 +302,7 @@ def main(pid, tier, seed):
         def post(rep, pool):
             m3real.run(rep, pool, pid, m3real.jobs_for(pid, tier, seed), 'real CBC on Evaluations/ and generator instances')
             if pid == 'C02':
+                termination_stage(rep, tier)
                 probe_variable_names(rep)
                 growth_misc(rep)
             if pid == 'C04':
